@@ -375,7 +375,11 @@ def g5_pair(rng):
                 pts = []
                 for (x, y) in r[:-1]:
                     fx, fy = float(x), float(y)
-                    if rng.random() < 0.4:
+                    if fx == 0.0 and rng.random() < 0.5:
+                        fx = -0.0
+                    if fy == 0.0 and rng.random() < 0.3:
+                        fy = -0.0
+                    if fx != 0.0 and rng.random() < 0.4:
                         fx = _ulps(fx, rng.choice([-2, -1, 1, 2]))
                     if rng.random() < 0.4:
                         fy = _ulps(fy, rng.choice([-2, -1, 1, 2]))
@@ -384,6 +388,19 @@ def g5_pair(rng):
             out.append(rp)
         return out
     return jig(a), jig(b)
+
+
+def g5_negzero_pair(rng):
+    """an almost vertical edge whose top vertex has x = -0.0, crossed by edges whose intersection abscissa
+    is clamped to that vertex' x: the corner-case-1 bump of divide_segment then starts from -0.0"""
+    w = rng.choice([1e-18, 1e-17, 3e-18, 1e-15])
+    h = rng.choice([2.0, 3.0, 1.5])
+    a = [[[(-1.0, -h), (w, -h), (-0.0, h), (-1.0, h), (-1.0, -h)]]]
+    y0 = rng.uniform(-0.9, 0.9) * h
+    b = [[[(-1.3, y0), (0.9, y0 - 0.5), (0.9, y0 + rng.uniform(0.2, 0.6)), (-1.3, y0 + rng.uniform(0.7, 1.0)), (-1.3, y0)]]]
+    if rng.random() < 0.5:
+        a, b = b, a
+    return a, b
 
 
 N2_REPLAY = ([[[(3.000000001, 1.0), (3.0, 5.000000001), (1.0, 0.7339996634907231), (3.000000001, 1.0)]]],
@@ -494,6 +511,7 @@ FAMILIES = {
     "g3": g3_pair,
     "g4": g4_pair,
     "g5": g5_pair,
+    "g5z": g5_negzero_pair,
     "g9": g9_evenodd_pair,
     "g10": g10_pair,
 }
